@@ -96,6 +96,9 @@ macro "c20_step_simp" h:ident hpc:ident : tactic =>
 macro "c20_close" : tactic =>
   `(tactic| (constructor <;> simp_all [S.core, Pc.stateAt, Pc.hasLive, Pc.isSetup2, Pc.inShut, Pc.initialPhase, Ev.stops]))
 
+theorem core_fatal (v : Variant) {s s' : S} (h : fire v s .fatal = some s') : s'.core = s.core := by
+  simp only [fire, Option.some.injEq] at h; subst h; rfl
+
 theorem inv_step_setup1_true {s s' : S} {ok : Bool} (hi : Inv s.core) (hpc : s.pc = .setup1 true) (h : stepRun s ok = some s') : Inv s'.core := by
   obtain ⟨h1, h2, h3, h4, h5, h6, h7, h8, h9, h10, h11, h12, h13, h14, h15, h16, h17, h18, h19⟩ := hi
   simp only [S.core] at h1 h2 h3 h4 h5 h6 h7 h8 h9 h10 h11 h12 h13 h14 h15 h16 h17 h18 h19
@@ -455,6 +458,7 @@ theorem inv_fire (v : Variant) {s s' : S} {l : Label} (hi : Inv s.core) (h : fir
   | call => rw [core_external v h (Or.inl rfl)]; exact hi
   | close => rw [core_external v h (Or.inr (Or.inl rfl))]; exact hi
   | cancel => rw [core_external v h (Or.inr (Or.inr (Or.inl rfl)))]; exact hi
+  | fatal => rw [core_fatal v h]; exact hi
   | post e => rw [core_external v h (Or.inr (Or.inr (Or.inr ⟨e, rfl⟩)))]; exact hi
   | begin =>
     simp only [fire] at h
@@ -532,6 +536,9 @@ theorem shut_fire {v : Variant} {s s' : S} {l : Label} (hp : s.pc.inShut = true 
   | cancel =>
     have := congrArg Core.pc (core_external v h (Or.inr (Or.inr (Or.inl rfl)))); simp only [S.core] at this
     simp [this, hp, Label.isStep]
+  | fatal =>
+    have := congrArg Core.pc (core_fatal v h); simp only [S.core] at this
+    simp [this, hp, Label.isStep]
   | post e =>
     have := congrArg Core.pc (core_external v h (Or.inr (Or.inr (Or.inr ⟨e, rfl⟩)))); simp only [S.core] at this
     simp [this, hp, Label.isStep]
@@ -592,6 +599,7 @@ theorem notLost_fire {s s' : S} {l : Label} (hi : Inv s.core) (hn : NotLost s) (
     · simp only [Option.some.injEq] at h; subst h; intro _; left; rfl
     · cases h
   | cancel => simp only [fire, Option.some.injEq] at h; subst h; exact hn
+  | fatal => simp only [fire, Option.some.injEq] at h; subst h; exact hn
   | post e => cases e <;> simp only [fire, postEv, Option.some.injEq, reduceCtorEq] at h <;> first | (subst h; exact hn) | cases h
   | begin =>
     simp only [fire] at h
@@ -627,6 +635,26 @@ theorem notLost_fire {s s' : S} {l : Label} (hi : Inv s.core) (hn : NotLost s) (
     · left; rw [k2]; exact h1
     · right; left; rw [k3]; exact h1
     · cases hpc : s.pc <;> simp [stepRun, hpc] at h h1
+
+
+/-- with a fatal report pending before `service.Shutdown`, no label other than a Run statement changes that -/
+theorem wedged_stable {v : Variant} {s s' : S} {l : Label} (hpc : s.pc = .shut3) (hf : s.nFatal > 0) (hl : l.isStep = false)
+    (h : fire v s l = some s') : s'.pc = .shut3 ∧ s'.nFatal > 0 := by
+  cases l with
+  | step ok => simp [Label.isStep] at hl
+  | call =>
+    simp only [fire, S.emit, Option.some.injEq] at h
+    by_cases hh : v.honours s.st = true <;> simp only [hh, if_true, if_false, Bool.false_eq_true] at h <;> subst h <;> exact ⟨hpc, hf⟩
+  | close =>
+    simp only [fire] at h
+    split at h
+    · simp only [Option.some.injEq] at h; subst h; exact ⟨hpc, hf⟩
+    · cases h
+  | cancel => simp only [fire, Option.some.injEq] at h; subst h; exact ⟨hpc, hf⟩
+  | fatal => simp only [fire, Option.some.injEq] at h; subst h; exact ⟨hpc, Nat.lt_succ_of_lt hf⟩
+  | post e => cases e <;> simp only [fire, postEv, Option.some.injEq, reduceCtorEq] at h <;> first | (subst h; exact ⟨hpc, hf⟩) | cases h
+  | begin => simp [fire, hpc] at h
+  | pick e => simp [fire, hpc] at h
 
 
 end OtelVerif.C20
